@@ -40,20 +40,21 @@ def level_constants(info):
     n = info["n"]
     data = primes[:-1]           # the last prime is the special prime
     special = primes[-1]
-    nl = len(data)
+    nl = info.get("levels", len(data)) or len(data)
+    off = len(data) - nl         # the chain may stop early (e.g. when the plain modulus exceeds the remaining modulus)
     qlow, qhigh, pbits, qinvt = [], [], [], []
     for l in range(nl):
         Q = 1
-        for p in data[:l + 1]:
+        for p in data[:l + 1 + off]:
             Q *= p
         qhigh.append(Q.bit_length())
         qlow.append(Q.bit_length() - 1)
-        pbits.append(data[l].bit_length())
-        qinvt.append(pow(data[l] % t, -1, t) if t > 1 and math.gcd(data[l], t) == 1 else 1)
+        pbits.append(data[l + off].bit_length())
+        qinvt.append(pow(data[l + off] % t, -1, t) if t > 1 and math.gcd(data[l + off], t) == 1 else 1)
     k = nl
     ks = k * n * 21 * ((max(data) + special - 1) // special) + (1 + n) + 1
     ksbits = ks.bit_length() + 2
-    return dict(NL=nl, QLow=qlow, QHigh=qhigh, PBits=pbits, QInvT=qinvt, KsBits=ksbits)
+    return dict(NL=nl, QLow=qlow, QHigh=qhigh, PBits=pbits, QInvT=qinvt, KsBits=ksbits, PrimeOffset=off)
 
 
 def default_galois_elts(n):
@@ -101,6 +102,7 @@ def write_instance(wd, name, info, *, actions, ct_slots, pt_slots, max_steps, ma
         mc.append("MCView == KeyOf(pool, nsteps)")
     mc.append('EmitState == PrintT(<<"S", ToJson([key |-> KeyOf(pool, nsteps), hist |-> hist])>>)')
     mc.append('EmitStep == PrintT(<<"T", ToJson([key |-> KeyOf(pool, nsteps), step |-> hist\'[Len(hist\')]])>>)')
+    mc.append("BalanceOk == BalanceOkOn(1..%d)" % min(t - 1, 60))
     mc.append(extra_defs)
     mc.append("====")
     open(os.path.join(wd, name + ".tla"), "w").write("\n".join(mc) + "\n")
@@ -115,6 +117,7 @@ def write_instance(wd, name, info, *, actions, ct_slots, pt_slots, max_steps, ma
     cfg.append("  MaxSize = %d" % max_size)
     cfg.append("  KsBits = %d" % c["KsBits"])
     cfg.append("  SeedWords = 9")
+    cfg.append("  PrimeOffset = %d" % c["PrimeOffset"])
     cfg.append("  TagMsgs = %s" % ("TRUE" if tag_msgs else "FALSE"))
     for nm in ["QLow", "QHigh", "PBits", "QInvT", "Msgs", "HasKeyFor", "CtSlots", "PtSlots", "Scales", "Steps", "Elts"]:
         cfg.append("  %s <- MC_%s" % (nm, nm))
